@@ -23,6 +23,7 @@ import (
 	"reservoir/config"
 	"reservoir/utils/bytesize"
 	"reservoir/utils/duration"
+	"verifharness/e2elib"
 	"verifharness/emit"
 )
 
@@ -217,6 +218,81 @@ func configChangeOverLimit(ctx context.Context, c hooks, cfg *config.Config, r *
 	return nil
 }
 
+// requestScenarios: hangs that would sit outside the cache package.
+//   - expired-leaf-reissue: a tunnel to a host whose cached certificate has run out, and a tunnel to another host
+//     right after it, both complete (the certificate table's lock is not held across its own operations);
+//   - unparseable-range-416-retry: a request whose Range the proxy cannot parse (so it is coalesced) and that the origin
+//     answers with 416 is answered, and so is the next plain GET of that URL (the retry does not wait for its own flight).
+func requestScenarios(dir string) [][2]string {
+	var out [][2]string
+	e2elib.Quiet()
+	env, err := e2elib.Start(e2elib.Options{Backend: "memory", Dir: dir + "-tls", TLS: true})
+	if err != nil {
+		panic(err)
+	}
+	tunnel := func(host string) error {
+		c, _, err := env.DialTunnel(host+":443", host, 6*time.Second)
+		if err == nil {
+			c.Close()
+		}
+		return err
+	}
+	if err := tunnel("old.example.org"); err != nil {
+		out = append(out, [2]string{"expired-leaf-reissue", "first tunnel failed: " + err.Error()})
+	} else {
+		shifted := 0
+		for _, h := range env.CA.VerifCachedHosts() {
+			shifted += env.CA.VerifShiftExpiry(h, 300*time.Hour) // every cached leaf is now past its NotAfter
+		}
+		if shifted > 0 {
+			if err := tunnel("old.example.org"); err != nil {
+				out = append(out, [2]string{"expired-leaf-reissue", "a tunnel to a host whose cached certificate had run out did not complete within 6 s: " + err.Error()})
+			}
+			if err := tunnel("other.example.org"); err != nil {
+				out = append(out, [2]string{"expired-leaf-reissue", "a tunnel to ANOTHER host, opened after one to a host with an expired cached certificate, did not complete within 6 s: " + err.Error()})
+			}
+		}
+	}
+	// not closed when a step hung: Close would wait for the hung handler
+	if len(out) == 0 {
+		env.Close()
+	}
+	os.RemoveAll(dir + "-tls")
+	for _, backend := range []string{"memory", "file"} {
+		d := dir + "-" + backend
+		env, err := e2elib.Start(e2elib.Options{Backend: backend, Dir: d})
+		if err != nil {
+			panic(err)
+		}
+		env.Cfg.Proxy.RetryOnRange416.Overwrite(true)
+		env.Origin.SetHandler(func(req e2elib.OriginRequest, n int) e2elib.Answer {
+			if req.Header.Get("Range") != "" {
+				return e2elib.NewAnswer(416, []byte("no"), "Content-Range: bytes */10")
+			}
+			return e2elib.NewAnswer(200, []byte("0123456789"), "Cache-Control: max-age=60")
+		})
+		hung := false
+		for i, rv := range []string{"bytes=100-200,300-400", "bytes=abc", "bytes=5-"} {
+			path := fmt.Sprintf("/odd%d", i)
+			if _, err := env.DoPlain(env.PlainRequest("GET", path, []string{"Range: " + rv}, nil), "GET", 6*time.Second); err != nil {
+				out = append(out, [2]string{"unparseable-range-416-retry", fmt.Sprintf("%s backend: GET %s with Range: %s (origin answers 416 to requests with a Range) was not answered within 6 s: %v", backend, path, rv, err)})
+				hung = true
+				break
+			}
+			if _, err := env.DoPlain(env.PlainRequest("GET", path, nil, nil), "GET", 6*time.Second); err != nil {
+				out = append(out, [2]string{"unparseable-range-416-retry", fmt.Sprintf("%s backend: the plain GET of %s after such a request was not answered within 6 s: %v", backend, path, err)})
+				hung = true
+				break
+			}
+		}
+		if !hung {
+			env.Close()
+		}
+		os.RemoveAll(d)
+	}
+	return out
+}
+
 func main() {
 	flag.Parse()
 	slog.SetDefault(slog.New(slog.NewTextHandler(io.Discard, nil)))
@@ -294,9 +370,18 @@ func main() {
 		os.RemoveAll(dir)
 		dist[sc.Name+"/"+sc.Backend]++
 	}
+	// request-level scenarios outside package cache (each step under its own deadline)
+	for _, f := range requestScenarios(filepath.Join(*flagOut, "req")) {
+		if len(failures) < 6 {
+			failures = append(failures, fail{scenario: scenario{Name: f[0]}, What: f[1]})
+		}
+	}
+	executed += 2
+	dist["expired-leaf-reissue"]++
+	dist["unparseable-range-416-retry"]++
 	out := map[string]any{
 		"harness": "sync", "seed": *flagSeed, "tier": *flagTier, "total": executed, "distinct": executed, "distinct_nontrivial": executed,
-		"rule":         "forced concurrency scenarios (store-triggered eviction with victims on the caller's shard; 8 workers x 250 mixed ops on colliding keys with 1 ms janitor ticks and limit/interval/budget change events; Destroy during a cycle; back-to-back interval changes) x backends {memory,file} x shards {1,2,3,64}; every scenario under a watchdog; non-trivial = all",
+		"rule":         "forced concurrency scenarios (store-triggered eviction with victims on the caller's shard; 8 workers x 250 mixed ops on colliding keys with 1 ms janitor ticks and limit/interval/budget change events; Destroy during a cycle; back-to-back interval changes) + request-level scenarios (tunnel to a host whose cached certificate has run out, then another host; a request with an unparseable Range answered 416 under retry_on_range_416, then a plain GET) x backends {memory,file} x shards {1,2,3,64}; every scenario under a watchdog; non-trivial = all",
 		"distribution": map[string]any{"scenario": dist},
 		"samples":      []any{map[string]any{"scenario": "store-evict-same-shard", "backend": "memory", "shards": 1}},
 		"files":        []string{},
